@@ -506,6 +506,23 @@ Step ==
                  \o (IF e.size <= e.limit /\ e.status # 200 THEN <<V("C10", "body_within_limit_refused", "", [size |-> e.size, limit |-> e.limit, status |-> e.status])>> ELSE <<>>)
                  \o (IF e.consumed > e.limit + 65536 THEN <<V("C10", "oversized_body_consumed", "", [consumed |-> e.consumed, limit |-> e.limit])>> ELSE <<>>)
             /\ UNCHANGED <<cfg, Rq, Cn>>
+       [] e.e = "failwrite" ->
+            \* a response whose write failed is still the one response of its request: its handler has returned, nobody wrote again
+            /\ S' = SS
+            /\ viol' = viol \o tv
+                 \o (IF ~e.returned THEN <<V("C11", "handler_stuck_after_failed_write", "", [which |-> e.which, rid |-> e.rid])>> ELSE <<>>)
+                 \o (IF e.nwh > 1 THEN <<V("C11", "second_response_to_one_request", "", [which |-> e.which, rid |-> e.rid, nwh |-> e.nwh])>> ELSE <<>>)
+            /\ UNCHANGED <<cfg, Rq, Cn>>
+       [] e.e = "candbogus" ->
+            \* a connection that named the session but no stream transport: past the upgrade timeout the server has closed it
+            /\ S' = SS
+            /\ viol' = viol \o tv \o (IF e.stillOpen THEN <<V("C08", "bogus_candidate_connection_left_open", "", [transport |-> e.transport])>> ELSE <<>>)
+            /\ UNCHANGED <<cfg, Rq, Cn>>
+       [] e.e = "tickwin" ->
+            \* the tick of the refreshed timer was held before the timer's mutex when the heartbeat packet was accepted: it is stale
+            /\ S' = SS
+            /\ viol' = viol \o tv \o (IF e.held > 0 /\ e.closed THEN <<V("C07", "closed_by_the_deadline_a_heartbeat_had_moved", "", [proto |-> e.proto])>> ELSE <<>>)
+            /\ UNCHANGED <<cfg, Rq, Cn>>
        [] e.e = "openwin" ->
             \* the constructor window (family direct): the peer's connection failed or closed while the handshaking goroutine was
             \* held inside the constructor. The application must not be handed a session whose transport was already gone, and
